@@ -195,4 +195,24 @@ PROPS = {
         "assumptions": ["retention is detected by token search in the JSON-decoded Sentry event, the extras and GetAllSafeDetails"],
         "parts": [rapid("retention", "TestProp", 8000, 160000)],
     },
+    "C05": {
+        "pkg": "c05",
+        "level": "fault_enumeration",
+        "level_text": "Exhaustive fault enumeration: for every type key that has a decoder in the live registries (read through the build-tag hook, so decoders "
+                      "added later are swept automatically) the full product of position {leaf, wrapper, multi-cause leaf} x carrier {top, middle of a chain, nested "
+                      "in a barrier payload} x payload fault {absent, every payload type the library emits filled and empty, unregistered Any, registered URL with "
+                      "garbage bytes} x detail lists {0, 1, 4} x message type {0, 1, 7} is decoded from real bytes and then used in every way (all verbs through fmt, "
+                      "Formattable and redact, all accessors, safe details, report, re-encode, re-decode, Is, UnwrapAll) under recover, scanning for panics swallowed "
+                      "by fmt. A rapid part applies 1-4 random mutations (swap/drop/empty/garble payloads, truncate/extend details, retarget families, change message "
+                      "types) to valid encodings of generated trees over hostile strings. Thorough adds native fuzzing of raw wire bytes.",
+        "level_note": "Nested EncodedError payloads are kept structurally complete (the property's precondition applies to nested errors too), so the 'empty "
+                      "EncodedError' payload is not part of the grid.",
+        "technique": "exhaustive fault-grid enumeration over the live decoder registries + property-based mutation of valid encodings (rapid); thorough: Go native fuzzing of wire bytes",
+        "rule": "fault grid enumerated completely (sharded by key); non-trivial = the fault reaches a registered decoder (key registered for that position); distinct = "
+                "hash of the grid point. Part mutations: rapid-generated trees over hostile strings, encoded, then 1-4 drawn mutations; non-trivial = at least 2 "
+                "spec nodes.",
+        "assumptions": ["wire messages are structurally complete (every nested error has a leaf or a wrapper set)"],
+        "parts": [plain("fault-grid", "TestGrid", shards={"quick": 16, "thorough": 16}), rapid("mutations", "TestMutations", 8000, 200000)],
+        "timeout": {"quick": 1200, "thorough": 7200},
+    },
 }
